@@ -235,8 +235,81 @@ class ExprMixin(CallMixin):
             return of_kind("Activation")
         return STRUCT
 
+    def exc_class_subject(self, sl: ast.AST) -> Optional[Val]:
+        """``ex.__class__`` / ``type(ex)`` where ``ex`` is a caught exception: the value of ``ex``."""
+        sl = strip_cast(sl)
+        subj = None
+        if isinstance(sl, ast.Attribute) and sl.attr == "__class__" and isinstance(sl.value, ast.Name):
+            subj = sl.value.id
+        elif isinstance(sl, ast.Call) and dotted(sl.func) == "type" and len(sl.args) == 1 and isinstance(sl.args[0], ast.Name):
+            subj = sl.args[0].id
+        if subj is not None and subj in self.env and self.env[subj].excs:
+            return self.env[subj]
+        return None
+
+    def literal_dict_of(self, node: ast.AST) -> Optional[ast.Dict]:
+        """The dict display a name denotes: a class attribute, a module global or a local assigned once."""
+        node = strip_cast(node)
+        if isinstance(node, ast.Dict):
+            return node
+        cands: List[ast.AST] = []
+        if isinstance(node, ast.Attribute) and isinstance(node.value, ast.Name):
+            owner = None
+            if node.value.id in ("self", "cls") and self.cv.cls:
+                owner = self.cv.cls
+            elif self.eng.find_class(node.value.id):
+                owner = node.value.id
+            while owner:
+                found = self.eng.find_class(owner)
+                if not found:
+                    break
+                cdef = found[1]
+                for st in cdef.body:
+                    if isinstance(st, (ast.Assign, ast.AnnAssign)) and st.value is not None:
+                        ts = st.targets if isinstance(st, ast.Assign) else [st.target]
+                        if any(isinstance(t, ast.Name) and t.id == node.attr for t in ts):
+                            cands.append(st.value)
+                if cands:
+                    break
+                bases = [dotted(b) for b in cdef.bases]
+                owner = next((b.split(".")[-1] for b in bases if b and self.eng.find_class(b.split(".")[-1])), None)
+        elif isinstance(node, ast.Name):
+            scope = self.node.body if not isinstance(self.node, ast.Lambda) else []
+            for st in [x for b in scope for x in ast.walk(b)]:
+                if isinstance(st, (ast.Assign, ast.AnnAssign)) and st.value is not None:
+                    ts = st.targets if isinstance(st, ast.Assign) else [st.target]
+                    if any(isinstance(t, ast.Name) and t.id == node.id for t in ts):
+                        cands.append(st.value)
+            if not cands:
+                for st in self.mod.tree.body:
+                    if isinstance(st, (ast.Assign, ast.AnnAssign)) and st.value is not None:
+                        ts = st.targets if isinstance(st, ast.Assign) else [st.target]
+                        if any(isinstance(t, ast.Name) and t.id == node.id for t in ts):
+                            cands.append(st.value)
+        if len(cands) == 1 and isinstance(strip_cast(cands[0]), ast.Dict):
+            return strip_cast(cands[0])
+        return None
+
+    def class_table_lookup(self, node: ast.Subscript) -> bool:
+        """``table[ex.__class__]``: a table keyed by exception classes and indexed by the exact class of a
+        caught exception is partial - every class that can arrive (subclasses included) must be a key."""
+        subject = self.exc_class_subject(node.slice)
+        if subject is None:
+            return False
+        table = self.literal_dict_of(node.value)
+        if table is None or not table.keys or any(k is None or dotted(k) is None for k in table.keys):
+            return False
+        keys = {self.exc_name(dotted(k)) for k in table.keys}
+        missing = sorted(e for e in subject.excs if e not in keys and e.split(".")[-1] not in keys)
+        if missing:
+            self.raise_("KeyError", f"table {ast.unparse(node.value)[:40]} keyed by exception class at {self.cv.label()}:{node.lineno} lacks {missing}")
+        return True
+
     def ev_Subscript(self, node: ast.Subscript) -> Val:
         base_node = strip_cast(node.value)
+        if self.class_table_lookup(node):
+            d = self.literal_dict_of(node.value)
+            return join_all([self.ev(v) for v in d.values]) if isinstance(base_node, ast.Dict) else STRUCT
         if isinstance(base_node, ast.Dict):
             # {...}[key]: a literal dispatch table; every symbol the key may be must be listed
             key = self.ev(node.slice)
